@@ -33,7 +33,9 @@ def apply(root, m):
     n = m.get('nth', 0)
     idx = -1
     for _ in range(n + 1):
-        idx = s.index(m['old'], idx + 1)
+        idx = s.find(m['old'], idx + 1)
+        if idx < 0:
+            return 'occurrence %d of old text not found' % n
     s = s[:idx] + m['new'] + s[idx + len(m['old']):]
     open(path, 'w').write(s)
     return None
